@@ -635,3 +635,69 @@ Proof.
   - intros [_ _ G] fu Hn Hd. exact (G fid (S (version s)) fu eq_refl Hn Hd).
   - intros H. constructor; sf; try discriminate. intros f v fu Ht Hn Hd. inversion Ht; subst. eauto.
 Qed.
+
+Lemma inv_set_woken c e s b : INV c e s -> INV c e (set_woken b s).
+Proof. intros []. constructor; sf; auto. Qed.
+Lemma inv_set_rx c e s b : INV c e s -> INV c e (set_rx_reg b s).
+Proof. intros []. constructor; sf; auto. Qed.
+Lemma inv_set_flag_off c e s b : INV c e s -> INV c false (set_flag b s).
+Proof. intros []. constructor; sf; auto. discriminate. Qed.
+Lemma inv_strengthen c s : INV c false s -> st_dirty s = false -> first_run s = false ->
+  seen s = curvals c s -> INV c true s.
+Proof.
+  intros [] H1 H2 H3. constructor; auto. intros _ [H|[H|H]]; [congruence|congruence|contradiction].
+Qed.
+
+Lemma n_loop_inv c fuel : gc c -> forall s, INV c true s ->
+  INV c true (n_loop c fuel s) /\ WK (n_loop c fuel s).
+Proof.
+  intros G. induction fuel as [|f IH]; intros s I; cbn [n_loop].
+  { split; [apply inv_set_woken; exact I|apply wk_woken]. }
+  destruct (task s) as [|fid v] eqn:Ht.
+  - (* waiting on the channel *)
+    set (s1 := set_rx_reg true s).
+    assert (I1 : INV c true s1) by (apply inv_set_rx; exact I).
+    change (flag s1) with (flag s). destruct (flag s) eqn:Hfl.
+    2: { split; [exact I1|]. constructor; unfold s1; sf; auto; try (rewrite Ht; discriminate). congruence. }
+    set (s2 := set_flag false s1).
+    assert (I2 : INV c false s2) by (apply (inv_set_flag_off c true); exact I1).
+    destruct (n_update_own c false s2 G I2) as (A3 & _ & Hd3 & Hu).
+    destruct (n_update c true s2) as [u s3]. cbn [fst snd] in *.
+    assert (Ht3 : task s3 = TIdle) by (rewrite (ag_task _ _ A3); exact Ht).
+    assert (Hprov3 : forall v, value s3 = Some v -> In v (legit s3)).
+    { intros v. rewrite (ag_value _ _ A3), (ag_legit _ _ A3). exact (i_prov c false s2 I2 v). }
+    assert (Hlen3 : length (seen s3) = length (curvals c s3)).
+    { rewrite (agree_len_seen _ _ A3), (agree_curvals c _ _ A3). exact (i_len c false s2 I2). }
+    destruct u.
+    + (* a source changed: the initial future, if still there, is stale *)
+      cbn [orb andb]. destruct G as (_ & _ & Gd). rewrite Gd.
+      set (sd := match init_fut s3 with
+                 | Some i => set_init_fut None (set_futs (upd i (fun fu => mkFut (f_res fu) (f_done fu) false) (futs s3)) s3)
+                 | None => s3 end).
+      assert (Hsd : init_fut sd = None /\ value sd = value s3 /\ legit sd = legit s3 /\ seen sd = seen s3 /\
+                    st_dirty sd = st_dirty s3 /\ curvals c sd = curvals c s3).
+      { unfold sd. destruct (init_fut s3) eqn:Hi; sf; repeat split; auto. }
+      destruct Hsd as (Hi & Hv & Hl & Hs & Hdd & Hc).
+      rewrite Hi.
+      pose proof (inv_start_create c sd) as Hst.
+      destruct (create_fut c sd) as [fid s4]. cbn [fst snd] in Hst.
+      apply IH. apply Hst; try congruence.
+      intros v. rewrite Hv, Hl. apply Hprov3.
+    + destruct (Hu eq_refl) as (I3 & Hs3 & _). cbn [orb andb].
+      destruct (first_run s3) eqn:Hfr.
+      * destruct (init_fut s3) as [i|] eqn:Hi.
+        -- apply IH. apply (inv_start_init c s3 i I3 Ht3 Hi Hd3 Hs3).
+        -- pose proof (inv_start_create c s3 Hprov3 Hlen3 Hd3 Hi) as Hst.
+           destruct (create_fut c s3) as [fid s4]. cbn [fst snd] in Hst. apply IH. exact Hst.
+      * apply IH. apply inv_strengthen; auto.
+  - (* awaiting the fetch *)
+    destruct (nth_error (futs s) fid) as [fu|] eqn:Hf.
+    2: { split; [exact I|]. constructor; try (rewrite Ht; discriminate).
+         intros f0 v0 fu0 Ht0 Hn0. rewrite Ht in Ht0. inversion Ht0; subst. congruence. }
+    destruct (f_done fu) eqn:Hdone.
+    2: { split; [exact I|]. constructor; try (rewrite Ht; discriminate).
+         intros f0 v0 fu0 Ht0 Hn0 Hd0. rewrite Ht in Ht0. inversion Ht0; subst.
+         rewrite Hf in Hn0. inversion Hn0; subst. congruence. }
+    rewrite <- (i_ser c true s I fid v Ht), Nat.eqb_refl.
+    apply IH. eapply inv_store; eauto.
+Qed.
